@@ -326,7 +326,7 @@ func (p *poller) readWriteLoop() {
 										*pbuf = (*pbuf)[:n]
 										g.onDataPtr(rc, pbuf)
 									}
-									g.payback(c, pbuf)
+									g.payback(c, pbuf, bufLen)
 									if errors.Is(err, syscall.EINTR) {
 										continue
 									}
@@ -363,8 +363,9 @@ func (p *poller) readWriteLoop() {
 								continue
 							}
 							pbuf := g.borrow(c)
+							bufLen := len(*pbuf)
 							c.readToEOF(pbuf)
-							g.payback(c, pbuf)
+							g.payback(c, pbuf, bufLen)
 						}
 						_ = c.closeWithError(io.EOF)
 						continue
